@@ -206,6 +206,6 @@ MANIFEST = {
     'engine': 'E2',
     'technique': 'symbolic execution of clang IR over z3 reals on projection objects whose members are all free symbols; identities around the opaque latitude maps',
     'text': 'Bounded solver verdicts on the real code: PolarStereographic::Forward has the textbook form on both sign branches; LambertConformalConic/AlbersEqualArea::Forward evaluate their latitude functions at the reflected latitude that Reverse inverts (both cone orientations); '
-            'SetScale of all three classes rescales every length-scale member consistently and touches nothing else.',
+            'SetScale of all three classes rescales every length-scale member consistently and touches nothing else; AlbersEqualArea in the cylindrical limit (_n0 = 0) returns the longitude it was given (Reverse after Forward).',
     'note': 'Exact-real semantics; tand/taupf/tauf/sincosd and the divided-difference Init code are opaque, so the 10 nm round trip, conformality/equal-area of the full maps and the constructor equivalences are not decided. Trusted: clang-14, vfw/irparse+rsym, z3.',
 }
